@@ -2,7 +2,7 @@
 Props/C07.lean — property C07 "IPSet algebra and queries agree with plain set theory on
 addresses".  Property theorems only; lemmas in Lemmas/IPSetL1..L5.
 -/
-import NetaddrVerif.Lemmas.IPSetL9
+import NetaddrVerif.Lemmas.IPSetL10
 namespace NV.C07
 open NV NV.IPSet
 
@@ -26,6 +26,10 @@ theorem intersection_spec (s t : St) (hs : Inv s) (ht : Inv t) :
     Inv (intersection s t) ∧
     ∀ ver a, denS (intersection s t) ver a ↔ denS s ver a ∧ denS t ver a :=
   IPSet.intersection_spec s t hs ht
+
+/-- `A | B` (`union`) and `update(B)` -/
+theorem union_spec (s t : St) (hs : Inv s) (ht : Inv t) :
+    Inv (union s t) ∧ ∀ u a, denS (union s t) u a ↔ denS s u a ∨ denS t u a := IPSet.union_spec s t hs ht
 
 /-- `isdisjoint` -/
 theorem isdisjoint_iff (s t : St) (hs : Inv s) (ht : Inv t) :
